@@ -110,7 +110,7 @@ func (r *Rec) Op(kind, line string, nontrivial bool) string {
 
 // OpTimeout bounds one op; a slower op is recorded as "blocked" and ends the run (a runaway
 // goroutine cannot be stopped, so nothing after it would be trustworthy).
-var OpTimeout = 20 * time.Second
+var OpTimeout = 60 * time.Second
 
 // MemLimit: an op during which the heap grows beyond this is recorded as "blocked".
 var MemLimit uint64 = 3 << 30
@@ -118,7 +118,11 @@ var MemLimit uint64 = 3 << 30
 func (r *Rec) execGuarded(line string) string {
 	done := make(chan string, 1)
 	go func() { done <- r.Exec(line) }()
-	timer := time.NewTimer(OpTimeout)
+	limit := OpTimeout
+	if strings.HasPrefix(line, "gen15 ") {
+		limit = 3 * OpTimeout // runs the Go compiler on generated code: slow on a loaded machine
+	}
+	timer := time.NewTimer(limit)
 	defer timer.Stop()
 	tick := time.NewTicker(200 * time.Millisecond)
 	defer tick.Stop()
